@@ -17,7 +17,10 @@
    the former refutation of clone (partial copy left behind) is gone: repaired in /repo (b1f8528);
    fault_safe_init FULL for every fault plan; fault_safe_rekey FULL for every fault plan whose errnos are not
    ENOENT (which signac reads as "not there"; excluded by the property): CInv, and a normal return means the
-   operation is complete. *)
+   operation is complete;
+   rekey_fault_restores_handle FULL for the stated positions (one injected error, not ENOENT, at the load, the
+   parking of the state point file, the directory rename; any call when the destination is occupied): after
+   the exception the handle's in-memory state point is the on-disk one (repair 8529336 of known finding 4). *)
 From SV Require Import Base Json MD5 Canon FS Proc Crash CorrC11 C11Proofs C11Remove C11Clone C11Fault.
 
 (* the prefix induction principle of the crash semantics *)
@@ -183,37 +186,42 @@ Print Assumptions C11_fault_clone_repaired_witness.
 
 (* The HANDLE after a handled error (Crash.rekey_h / op1_h carry the handle's id and in-memory state point to
    every exit; rekey_h_forget: forgetting them gives the program the other theorems speak about).
-   Directory rename of a re-key fails (any errno but ENOENT, injected at that call): exception, pre-state on
-   disk (st3), and the handle holds the old id and exactly the on-disk state point — a later change through the
-   same handle cannot smuggle the rejected one in. *)
-Theorem C11_rekey_dir_fault_restores_handle : forall frepr wss f0 w1 w2 wr old nsp,
+   A re-key REJECTED by one injected I/O error (any errno but ENOENT) at the initial load (0), the parking of
+   the state point file (1) or the directory rename (2), or — destination occupied, so that the directory
+   rename fails by itself — at any call: exception, the handle keeps the old id, and whenever the state point
+   file is in place afterwards it holds the pre-state value and the handle has either not loaded a state point
+   (the next access loads the file) or holds exactly that value.  A later change through the same handle
+   cannot smuggle the rejected one in (known finding 4, fixed in 8529336: before, call 1 left the rejected
+   value in memory). *)
+Theorem C11_rekey_fault_restores_handle : forall frepr wss f0 w1 w2 wr old nsp,
   WInv frepr wss f0 -> In (w1 :: w2 :: wr) wss -> In old (job_dirs f0 (w1 :: w2 :: wr)) ->
   old <> calc_id frepr nsp ->
   get f0 (((w1 :: w2 :: wr) ++ [old]) ++ [SPT]) <> Some Dir ->
-  forall atomic e, e <> ENOENT ->
-  exists f3 h x v0,
-    run_fault (single 2 e) 0 (rk_obs frepr w1 w2 wr old nsp atomic) f0 = (f3, inl (h, inr x)) /\
-    st3 f0 w1 w2 wr old (match get f0 (((w1 :: w2 :: wr) ++ [old]) ++ [SPF]) with Some (File c) => c | _ => empty_content end) f3 /\
-    hs_ws h = w1 :: w2 :: wr /\ hs_id h = old /\ hs_sp h = Some v0 /\
-    sp_value f0 (w1 :: w2 :: wr) old = Some v0 /\ sp_value f3 (w1 :: w2 :: wr) old = Some v0.
-Proof. exact rekey_dir_fault_restores_handle. Qed.
-Print Assumptions C11_rekey_dir_fault_restores_handle.
+  forall atomic k e, e <> ENOENT ->
+  k <= 2 \/ occupied frepr f0 w1 w2 wr nsp = true ->
+  exists f h x,
+    run_fault (single k e) 0 (rk_obs frepr w1 w2 wr old nsp atomic) f0 = (f, inl (h, inr x)) /\
+    hs_ws h = w1 :: w2 :: wr /\ hs_id h = old /\
+    forall v, sp_value f (w1 :: w2 :: wr) old = Some v ->
+      sp_value f0 (w1 :: w2 :: wr) old = Some v /\ (hs_sp h = None \/ hs_sp h = Some v).
+Proof. exact rekey_fault_restores_handle. Qed.
+Print Assumptions C11_rekey_fault_restores_handle.
 
-(* REFUTED for the exit through the FIRST rename (state point file -> backup), known finding 4: the error
-   propagates and the disk is the pre-state, but the handle keeps the rejected state point; the follow-up
-   sp["q"] = 9 then creates a directory validating {a: 5, q: 9}, and {a: 1, q: 9} does not exist *)
-Theorem C11_rekey_first_rename_handle_refuted :
+(* the former failing input of known finding 4 as a regression witness: EIO at the parking of the state point
+   file of {a: 1} -> {a: 5}, then sp["q"] = 9 through the same handle: memory = disk = {a: 1} after the error;
+   the follow-up produces {a: 1, q: 9}, and {a: 5, q: 9} does not exist *)
+Theorem C11_rekey_first_rename_repaired_witness :
   (let '(f, out) := run_fault (single 1 EIO) 0 (op1_h cw_repr true (KRekey cw_a cw_id cw_nsp) (fun h r => Ret (h, r))) cw_f0 in
-   (exists h x, out = inl (h, inr x) /\ hs_id h = cw_id /\ hs_sp h = Some cw_nsp)
+   (exists h x, out = inl (h, inr x) /\ hs_id h = cw_id /\ hs_sp h = Some cw_sp)
    /\ sp_value f cw_a cw_id = Some cw_sp
    /\ forallb (fun e => node_same (get cw_f0 (fst e)) (get f (fst e))) (cw_f0 ++ f) = true)
   /\
   (let '(f2, out2) := run_fault (single 1 EIO) 0 (follow_prog cw_repr true (KRekey cw_a cw_id cw_nsp) cw_fo) cw_f0 in
    (exists x, out2 = inl (inr x, inl tt))
-   /\ validates cw_repr f2 cw_a (calc_id cw_repr cw_forged) = true
-   /\ exists_ f2 (cw_a ++ [calc_id cw_repr (JObj [([97%N], JInt 1); ([113%N], JInt 9)])]) = false).
-Proof. exact rekey_first_rename_witness. Qed.
-Print Assumptions C11_rekey_first_rename_handle_refuted.
+   /\ validates cw_repr f2 cw_a (calc_id cw_repr cw_intended) = true
+   /\ exists_ f2 (cw_a ++ [calc_id cw_repr cw_forged]) = false).
+Proof. exact rekey_first_rename_repaired_witness. Qed.
+Print Assumptions C11_rekey_first_rename_repaired_witness.
 
 (* licence for the correspondence step: when a crash_safe theorem covers the case's operation and the
    implementation's observations agree with the model (no mismatch), every crash state the implementation
